@@ -32,6 +32,12 @@ def cases(draw, tier):
     cfg = {"simulation": {"markets": list(names), "agents": ["A0"], "sessions": []}}
     for n in names:
         cfg[n] = {"class": "Market", "tickSize": draw(st.sampled_from([1.0, 0.5, 0.1, 0.01])), "marketPrice": draw(st.sampled_from([100.0, 250.0, 1000.0]))}
+    if nm == 3 and draw(st.integers(0, 2)) == 0:
+        # an index over the first two markets, listed BEFORE the third one
+        for n in names[:2]:
+            cfg[n]["outstandingShares"] = 100
+        cfg["IDX"] = {"class": "IndexMarket", "tickSize": 1.0, "marketPrice": 100.0, "markets": names[:2]}
+        cfg["simulation"]["markets"].insert(2, "IDX")
     r = draw(st.sampled_from([0.005, 0.02, 0.05, 0.1, 0.3, 0.5]))
     offs = [-6, -2, -1, 0, 1, 2, 6]
     fracs = [-0.7, -0.4, -0.12, -0.06, -0.03, -0.011, -0.004, 0.004, 0.011, 0.03, 0.06, 0.12, 0.4, 0.7]
